@@ -645,19 +645,27 @@ func searchFrom(startBlock *ssa.BasicBlock, startIdx int, o searchOpts) (ssa.Ins
 	type item struct {
 		b    *ssa.BasicBlock
 		i    int
+		from *ssa.BasicBlock
 		path []*ssa.BasicBlock
 	}
-	seen := map[*ssa.BasicBlock]bool{}
-	work := []item{{startBlock, startIdx, []*ssa.BasicBlock{startBlock}}}
+	type visit struct{ b, from *ssa.BasicBlock }
+	seen := map[visit]bool{}
+	work := []item{{startBlock, startIdx, nil, []*ssa.BasicBlock{startBlock}}}
 	first := true
 	for len(work) > 0 {
 		it := work[0]
 		work = work[1:]
+		// a block that branches on a short-circuit phi of its own is visited once per predecessor: which way it
+		// goes depends on where control came from
+		key := visit{it.b, nil}
+		if phiCondOf(it.b) != nil {
+			key.from = it.from
+		}
 		if !first || it.i == 0 {
-			if seen[it.b] {
+			if seen[key] {
 				continue
 			}
-			seen[it.b] = true
+			seen[key] = true
 		}
 		first = false
 		stopped := false
@@ -678,11 +686,67 @@ func searchFrom(startBlock *ssa.BasicBlock, startIdx int, o searchOpts) (ssa.Ins
 			if o.skipEdge != nil && o.skipEdge(it.b, si) {
 				continue
 			}
+			if !feasibleAfter(it.b, it.from, si) {
+				continue
+			}
 			np := append(append([]*ssa.BasicBlock{}, it.path...), s)
-			work = append(work, item{s, 0, np})
+			work = append(work, item{s, 0, it.b, np})
 		}
 	}
 	return nil, nil
+}
+
+// phiCondOf: the block ends in an If whose condition is a phi defined in this very block (go/ssa's form of a
+// short-circuit expression used as a switch-case condition).
+func phiCondOf(b *ssa.BasicBlock) *ssa.Phi {
+	iff := ifOf(b)
+	if iff == nil {
+		return nil
+	}
+	c := iff.Cond
+	neg := false
+	for {
+		if u, ok := c.(*ssa.UnOp); ok && u.Op == token.NOT {
+			c, neg = u.X, !neg
+			continue
+		}
+		break
+	}
+	_ = neg
+	if ph, ok := c.(*ssa.Phi); ok && ph.Block() == b {
+		return ph
+	}
+	return nil
+}
+
+// feasibleAfter: entering b from predecessor `from`, can the branch leave through successor si? Only decided when
+// b branches on its own phi and the value coming in over that edge is a boolean constant.
+func feasibleAfter(b, from *ssa.BasicBlock, si int) bool {
+	ph := phiCondOf(b)
+	if ph == nil || from == nil {
+		return true
+	}
+	for i, p := range b.Preds {
+		if p != from {
+			continue
+		}
+		k, ok := ph.Edges[i].(*ssa.Const)
+		if !ok || k.Value == nil || k.Value.Kind() != constant.Bool {
+			return true
+		}
+		val := constant.BoolVal(k.Value)
+		// polarity of the If condition relative to the phi
+		c := ifOf(b).Cond
+		for {
+			if u, ok := c.(*ssa.UnOp); ok && u.Op == token.NOT {
+				c, val = u.X, !val
+				continue
+			}
+			break
+		}
+		return (si == 0) == val
+	}
+	return true
 }
 
 func blockPath(p *Prog, path []*ssa.BasicBlock) string {
@@ -916,6 +980,70 @@ type liftEntry struct {
 	ok    bool
 }
 
+// closureCallSites: the instructions at which the closure value mc is called, if all its uses are synchronous calls:
+// called directly, handed to a repo function that only calls that parameter, or handed to a known synchronous
+// higher-order function (through a func-type conversion if need be).
+func closureCallSites(mc ssa.Value) ([]ssa.Instruction, bool) {
+	var out []ssa.Instruction
+	for _, ref := range *mc.Referrers() {
+		switch u := ref.(type) {
+		case *ssa.ChangeType:
+			sub, ok := closureCallSites(u)
+			if !ok {
+				return nil, false
+			}
+			out = append(out, sub...)
+		case *ssa.Call:
+			if u.Common().Value == mc {
+				out = append(out, u)
+				continue
+			}
+			// passed as an argument
+			sc := u.Common().StaticCallee()
+			if sc == nil {
+				return nil, false
+			}
+			if sc.Blocks != nil && sc.Pkg != nil && strings.HasPrefix(sc.Pkg.Pkg.Path(), modPath) {
+				// dynamic calls of the corresponding parameter inside the callee
+				found := false
+				for ai, a := range u.Common().Args {
+					if a != mc || ai >= len(sc.Params) {
+						continue
+					}
+					prm := sc.Params[ai]
+					for _, r2 := range *prm.Referrers() {
+						switch c2 := r2.(type) {
+						case *ssa.Call:
+							if c2.Common().Value == ssa.Value(prm) {
+								out = append(out, c2)
+								found = true
+							} else {
+								return nil, false
+							}
+						case *ssa.DebugRef:
+						default:
+							return nil, false
+						}
+					}
+				}
+				if !found {
+					return nil, false
+				}
+				continue
+			}
+			if syncHigherOrder[sc.String()] {
+				out = append(out, u)
+				continue
+			}
+			return nil, false
+		case *ssa.DebugRef:
+		default:
+			return nil, false // go, defer, stored: may run at another time
+		}
+	}
+	return out, true
+}
+
 func (p *Prog) liftSitesCompute(f *ssa.Function) ([]ssa.Instruction, bool) {
 	var out []ssa.Instruction
 	if par := f.Parent(); par != nil {
@@ -925,56 +1053,11 @@ func (p *Prog) liftSitesCompute(f *ssa.Function) ([]ssa.Instruction, bool) {
 				if !ok || mc.Fn != ssa.Value(f) {
 					continue
 				}
-				for _, ref := range *mc.Referrers() {
-					switch u := ref.(type) {
-					case *ssa.Call:
-						if u.Common().Value == ssa.Value(mc) {
-							out = append(out, u)
-							continue
-						}
-						// passed as an argument
-						sc := u.Common().StaticCallee()
-						if sc == nil {
-							return nil, false
-						}
-						if sc.Blocks != nil && sc.Pkg != nil && strings.HasPrefix(sc.Pkg.Pkg.Path(), modPath) {
-							// dynamic calls of the corresponding parameter inside the callee
-							found := false
-							for ai, a := range u.Common().Args {
-								if a != ssa.Value(mc) || ai >= len(sc.Params) {
-									continue
-								}
-								prm := sc.Params[ai]
-								for _, r2 := range *prm.Referrers() {
-									switch c2 := r2.(type) {
-									case *ssa.Call:
-										if c2.Common().Value == ssa.Value(prm) {
-											out = append(out, c2)
-											found = true
-										} else {
-											return nil, false
-										}
-									case *ssa.DebugRef:
-									default:
-										return nil, false
-									}
-								}
-							}
-							if !found {
-								return nil, false
-							}
-							continue
-						}
-						if syncHigherOrder[strings.TrimPrefix(sc.String(), "")] {
-							out = append(out, u)
-							continue
-						}
-						return nil, false
-					case *ssa.DebugRef:
-					default:
-						return nil, false // go, defer, stored: may run at another time
-					}
+				sites, ok := closureCallSites(mc)
+				if !ok {
+					return nil, false
 				}
+				out = append(out, sites...)
 			}
 		}
 		return out, len(out) > 0
@@ -996,11 +1079,61 @@ func (p *Prog) liftSitesCompute(f *ssa.Function) ([]ssa.Instruction, bool) {
 		}
 		out = append(out, cs.(ssa.Instruction))
 	}
-	// address taken (method value / function value)? then other callers may exist
+	// address taken (method value / function value): the uses of the value must all be synchronous calls, too
 	if p.addressTaken(f) {
-		return nil, false
+		sites, ok := p.methodValueSites(f)
+		if !ok {
+			return nil, false
+		}
+		out = append(out, sites...)
 	}
 	return out, len(out) > 0
+}
+
+// methodValueSites: f is used as a method value x.f (a closure over the synthetic bound-method wrapper): the call
+// sites of those closures. ok=false if f's address is taken in any other way.
+func (p *Prog) methodValueSites(f *ssa.Function) ([]ssa.Instruction, bool) {
+	var out []ssa.Instruction
+	n := 0
+	for _, g := range p.AllFuncs {
+		for _, b := range g.Blocks {
+			for _, ins := range b.Instrs {
+				for _, op := range ins.Operands(nil) {
+					if op == nil || *op == nil {
+						continue
+					}
+					fn, ok := (*op).(*ssa.Function)
+					if !ok {
+						continue
+					}
+					if fn == f {
+						// f itself used as a value (not as the static callee of this instruction)?
+						if ci, isCall := ins.(ssa.CallInstruction); isCall && ci.Common().Value == ssa.Value(fn) {
+							continue
+						}
+						return nil, false
+					}
+					if fn.Synthetic == "" || unwrapSynthetic(fn) != f {
+						continue
+					}
+					mc, isMC := ins.(*ssa.MakeClosure)
+					if !isMC || mc.Fn != ssa.Value(fn) {
+						if ci, isCall := ins.(ssa.CallInstruction); isCall && ci.Common().Value == ssa.Value(fn) {
+							continue // a direct call of a wrapper (promoted method): counted with the static callers
+						}
+						return nil, false
+					}
+					sites, ok := closureCallSites(mc)
+					if !ok {
+						return nil, false
+					}
+					out = append(out, sites...)
+					n++
+				}
+			}
+		}
+	}
+	return out, n > 0
 }
 
 // onlyWithin: every execution of f happens inside an execution of root (f is root, or all of f's lift sites are in
